@@ -208,6 +208,15 @@ def run_shard(spec):
                         continue
                     col.eval()
                     check_symmetry(col, gmerge, b, l, rr, "generic", "generic:" + name, {"b": b, "l": l, "r": rr, "generic": True})
+    # long documents (257-700 items / keys / lines): laws, and symmetry of two independent edit scripts of one base
+    from .c02 import long_base, long_edit
+    for _ in range(12 if spec["list_n"] < 3 else 150):
+        b, kind = long_base(r)
+        l, rr = long_edit(r, b, kind), long_edit(r, b, kind)
+        col.eval()
+        check_laws(col, gmerge, b, l, "generic", "generic:long-" + kind, {"b": b, "x": l, "generic": True})
+        check_symmetry(col, gmerge, b, l, rr, "generic", "generic:long-" + kind, {"b": b, "l": l, "r": rr, "generic": True})
+        col.count("generic:long")
     if spec["list_n"] >= 3:
         S = list(G.lists_upto(3, alpha))
         for _ in range(20000):
